@@ -39,10 +39,7 @@ theorem C19_auth_signout_no_session (revokeOK : Bool) :
 
 /-- Tie (T1): `SignOut` loads the session, calls `Revoke`, and only then clears and redirects. -/
 theorem C19_skeleton_SignOut : Sso.Generated.skel_auth_SignOut =
-    ["call:NewLogEntry", "call:Get", "call:getProxyHost", "call:Sprintf", "if{", "call:SignOutPage", "return", "}", "call:LoadSession",
-     "switch{", "case nil{", "break", "}", "case http.ErrNoCookie{", "call:Redirect", "return", "}",
-     "default{", "call:Error", "call:ClearSession", "call:Redirect", "return", "}", "}",
-     "call:Revoke", "if{", "call:append", "call:Incr", "call:Error", "call:SignOutPage", "return", "}", "call:ClearSession", "call:Redirect"] := by decide
+    ["call:Get", "call:getProxyHost", "if{", "call:SignOutPage", "return", "}", "call:LoadSession", "switch{", "case nil{", "break", "}", "case http.ErrNoCookie{", "call:Redirect", "return", "}", "default{", "call:ClearSession", "call:Redirect", "return", "}", "}", "call:Revoke", "if{", "call:SignOutPage", "return", "}", "call:ClearSession", "call:Redirect"] := by decide
 
 /-- Tie (T1): concurrent revocations are coalesced **by access token** (`SingleFlightProvider.Revoke`, key expression
 regenerated from the source) … -/
@@ -69,8 +66,8 @@ theorem C19_wiring :
 
 /-- Tie (T1): what the providers' `Revoke` send. -/
 theorem C19_skeleton_Revoke :
-    Sso.Generated.skel_google_Revoke = ["call:Set", "call:String", "call:googleRequest", "if{", "return", "}", "call:NewLogEntry", "call:WithUser", "call:Info", "return"] ∧
-    Sso.Generated.skel_okta_Revoke = ["call:Add", "call:Add", "call:Add", "call:Add", "call:String", "call:oktaRequest", "if{", "return", "}", "call:NewLogEntry", "call:WithUser", "call:Info", "return"] := by decide
+    Sso.Generated.skel_google_Revoke = ["call:Set", "call:String", "call:googleRequest", "if{", "return", "}", "return"] ∧
+    Sso.Generated.skel_okta_Revoke = ["call:Add", "call:Add", "call:Add", "call:Add", "call:String", "call:oktaRequest", "if{", "return", "}", "return"] := by decide
 
 end Sso.AuthN
 
